@@ -235,6 +235,42 @@ def run(chk):
         same += 1
     chk.cov['components']['literal-stream'] = {'evaluations': len(mlines), 'streams_identical': same, 'inputs': len(datas)}
     chk.cov['evaluations'] += len(mlines)
+    # ---- (d2) the table built from a histogram: build_from_counts (shape for the number of symbols that occur, weights
+    # handed out by rank of the counts, canonical codes) = model/HufCounts.v, code for code; histograms with ties,
+    # unused symbols in between, all alphabet sizes
+    hists = []
+    for d in datas:
+        c = [0] * (max(d) + 1)
+        for b in d:
+            c[b] += 1
+        hists.append(c)
+    for n in list(range(2, 257)) if thorough else [2, 3, 4, 5, 7, 8, 9, 16, 17, 31, 32, 33, 64, 100, 128, 129, 200, 255, 256]:
+        for style in range(3):
+            L = min(256, n + rng.below(1 + min(40, 256 - n)))
+            c = [0] * L
+            pos = list(range(L))
+            for i in range(L - 1, 0, -1):
+                j = rng.below(i + 1)
+                pos[i], pos[j] = pos[j], pos[i]
+            for p in pos[:n]:
+                c[p] = 1 + (rng.below(4) if style == 0 else rng.below(100000) if style == 1 else min(rng.below(9), rng.below(9)))
+            while c and c[-1] == 0 and rng.below(2):
+                c.pop()
+            if sum(1 for x in c if x) >= 2:
+                hists.append(c)
+    hl = [','.join(map(str, c)) for c in hists]
+    hreal = zh_par('entropy', ['hufcodes ' + x for x in hl])
+    hmod = model_run('hufcounts', hl)
+    hsame = 0
+    for x, r, m in zip(hl, hreal, hmod):
+        mc = (m or 'missing').split(' | ')
+        if not r.startswith('ok ') or len(mc) != 2 or r[3:].strip() != mc[1].strip():
+            chk.tie_broken('correspondence:table-from-counts', 'the modelled build_from_counts differs from the compressor for the histogram %s: model %s real %s' % (
+                x[:200], (m or '')[:120], r[:120]))
+            break
+        hsame += 1
+    chk.cov['components']['table-from-counts'] = {'evaluations': len(hl), 'tables_identical': hsame, 'alphabet_sizes': len(set(sum(1 for v in c if v) for c in hists))}
+    chk.cov['evaluations'] += len(hl)
     # ---- (e) the FSE-compressed weight description: what the compressor writes for a weight list (table description +
     # two interleaved states) = description + the modelled two-state stream, byte for byte; the decoder model reads the
     # weights back (model of proofs/C13_WeightStream.v)
